@@ -1049,6 +1049,66 @@ class Canonicaliser:
             and all(pure(x) or isinstance(x, ast.Tuple) and all(pure(y) for y in x.elts) for x in v.values)
 
     # ---------------------------------------------------------------- local aliases
+    def _rebinders(self):
+        """{simple function name: attribute names that a call of a function of that name may re-bind}, transitively
+        through the calls it makes (by simple name: an over-approximation)."""
+        if getattr(self, '_rb', None) is not None:
+            return self._rb
+        direct, calls = {}, {}
+        P = getattr(self, 'P', None)
+        if P is None:
+            self._rb = {}
+            return self._rb
+        for u in P.all_units(with_closures=False):
+            if u.node.name == '__init__':
+                continue
+            key = ('m:' if u.cls is not None else 'f:') + u.node.name
+            d = direct.setdefault(key, set())
+            c = calls.setdefault(key, set())
+            env = None
+            for n in ast.walk(u.node):
+                if isinstance(n, ast.Attribute) and isinstance(n.ctx, (ast.Store, ast.Del)):
+                    # (class of the object whose attribute is re-bound, attribute); None when the class is unknown
+                    owner = None
+                    if isinstance(n.value, ast.Name) and n.value.id == 'self' and u.cls is not None:
+                        owner = u.cls.name
+                    else:
+                        try:
+                            env = env or P.env(u, u.cls)
+                            t = env.typeof(n.value)
+                            owner = t[1].name if t and t[0] == 'inst' else None
+                        except Exception:
+                            owner = None
+                    d.add((owner, n.attr))
+                elif isinstance(n, ast.Call):
+                    f = n.func
+                    nm = f.attr if isinstance(f, ast.Attribute) else getattr(f, 'id', '')
+                    # methods of the built-in containers / strings / loggers called on something else than self are
+                    # not calls into the package (a package method of the same name is not meant)
+                    if not (isinstance(f, ast.Attribute) and not (isinstance(f.value, ast.Name) and f.value.id == 'self')
+                            and nm in ('get', 'update', 'append', 'add', 'pop', 'remove', 'discard', 'items', 'values',
+                                       'keys', 'copy', 'clear', 'extend', 'insert', 'setdefault', 'index', 'count',
+                                       'sort', 'join', 'split', 'format', 'strip', 'startswith', 'endswith', 'debug',
+                                       'info', 'warn', 'error', 'critical', 'trace', 'blather', 'group', 'search',
+                                       'match', 'lower', 'upper', 'replace', 'encode', 'decode', 'intersection',
+                                       'union', 'difference', 'issubset', 'issuperset', 'total_seconds', 'put',
+                                       'read', 'write', 'close', 'find', 'findall', 'findtext')):
+                        # a bare name designates a module-level function, an attribute call a method
+                        c.add(('m:' if isinstance(f, ast.Attribute) else 'f:') + nm)
+                    if isinstance(f, ast.Name) and f.id == 'setattr' and len(n.args) >= 2 and isinstance(n.args[1], ast.Constant):
+                        d.add((None, str(n.args[1].value)))
+        changed = True
+        while changed:
+            changed = False
+            for k in direct:
+                for c in calls.get(k, ()):
+                    extra = direct.get(c, set()) - direct[k]
+                    if extra:
+                        direct[k] |= extra
+                        changed = True
+        self._rb = direct
+        return self._rb
+
     def aliases(self, unit, fn):
         stores = stored_names(fn)
         params = set(param_names(fn))
@@ -1090,6 +1150,42 @@ class Canonicaliser:
                 if ast.unparse(e) in rebound:
                     bad = True
                 e = e.value
+            # ... nor by a function called while the alias is alive: `jobs = self.planned_jobs` does not follow
+            # a `self.planned_jobs = {}` made by a callee (the calls after the definition, all of them inside a loop)
+            chain = []          # (class of the owner or None, attribute) for each link of the chain
+            P = getattr(self, 'P', None)
+            for x in ast.walk(v):
+                if isinstance(x, ast.Attribute):
+                    owner = None
+                    if P is not None and hasattr(unit, 'mod'):
+                        if isinstance(x.value, ast.Name) and x.value.id == 'self' and unit.cls is not None:
+                            owner = unit.cls
+                        else:
+                            try:
+                                ty = P.env(unit, unit.cls).typeof(x.value)
+                                owner = ty[1] if ty and ty[0] == 'inst' else None
+                            except Exception:
+                                owner = None
+                    chain.append((owner, x.attr))
+            if chain and P is not None:
+                rb = self._rebinders()
+                in_loop = any(isinstance(l, (ast.For, ast.While)) and any(x is n for x in ast.walk(l)) for l in own_nodes(fn))
+
+                def related(owner, cname):
+                    if owner is None or cname is None:
+                        return True
+                    c = P.classes.get(cname)
+                    return c is None or c is owner or c in P.mro(owner) or owner in P.mro(c)
+                for c in ast.walk(fn):
+                    if isinstance(c, ast.Call) and (in_loop or getattr(c, 'lineno', 0) >= n.lineno):
+                        f = c.func
+                        nm = ('m:' + f.attr) if isinstance(f, ast.Attribute) else ('f:' + getattr(f, 'id', ''))
+                        for (cn, at) in rb.get(nm, ()):
+                            if any(at == a2 and related(o2, cn) for o2, a2 in chain):
+                                bad = True
+                                break
+                    if bad:
+                        break
             if any(isinstance(x, ast.Subscript) for x in ast.walk(v)):
                 # an indexed container may also change through its methods (pop, update, ..) or be a fresh event each
                 # time: only when the container is a parameter that the function never mutates
